@@ -111,6 +111,16 @@ package parsigdb
 //@ after matchingSigs: err == nil && ok && !exempt && duty.Type != core.DutySignature ==> cntRoot(sigs, rootOf(sig), len(sigs)-1) < len(matching) && matching[cntRoot(sigs, rootOf(sig), len(sigs)-1)] == sigs[len(sigs)-1]
 //@ after matchingSigs: err == nil && ok && !exempt ==> hasShareOf(matching, sig)
 //@ after getThresholdMatching: err == nil && ok && !exempt ==> hasShareOf(psigs, sig)
+// Completeness of the trigger search: every share that was newly stored is matched against its own root group,
+// every successful match is checked against the threshold, and every group found to have reached it is output.
+//@ ghost nNew int
+//@ ghost nMatchOK int
+//@ ghost nReached int
+//@ ghostafter db.store: nNew = nNew + ite(err == nil && ok, 1, 0)
+//@ ghostafter matchingSigs: nMatchOK = nMatchOK + ite(err == nil, 1, 0)
+//@ ghostafter getThresholdMatching: nReached = nReached + ite(err == nil && ok, 1, 0)
+//@ loop 2 invariant ncalls(matchingSigs) == nNew - old(nNew) && ncalls(getThresholdMatching) == nMatchOK - old(nMatchOK)
+//@ loop 2 invariant len(output) == nReached - old(nReached) && forallk(pk, output, exists(j, 0, $i, $ks[j] == pk))
 //@ ensures status == core.DeadlineExpired ==> ncalls(sub) == 0 && ncalls(db.store) == 0
 //@ ensures status != core.DeadlineExpired ==> ncalls(core.SyncSubcommitteeIndex) == len(signedSet)
 //@ loop 1 invariant true
